@@ -543,6 +543,8 @@ func main() {
 	h.noInStream()
 	h.lineTerminatorStream()
 	h.literalPositionStream()
+	h.numericFollowStream()
+	h.fileSetErrorStream()
 	for env.Count() < env.N {
 		switch k := r.Intn(20); {
 		case k < 8: // generated program, verdict decided by the Coq model/spec
